@@ -1199,6 +1199,347 @@ mod h3raw {
     }
 }
 
+/// Family "H3ERR" (C06): h3 over h3-quinn against a raw Quinn peer that ends a request stream, or the connection, in every way the
+/// transport offers (FIN, RESET_STREAM, STOP_SENDING, CONNECTION_CLOSE) after a prefix of a message; the application follows the
+/// documented call pattern and RETRIES the first call that fails.  Every call is recorded with its result; a call that has not
+/// returned CAP after the peer's last act is recorded as `pending`, a panic of the h3 task as `panic`.  Judged by C06Q_Trace.
+mod h3err {
+    use super::*;
+    use crate::proj;
+    use crate::util::bytes_of;
+
+    type Log = Arc<std::sync::Mutex<Vec<Value>>>;
+    fn ev(log: &Log, kind: &str, api: &str, res: Value) {
+        log.lock().unwrap().push(json!({"ev": kind, "api": api, "res": res}));
+    }
+    fn is_err(res: &Value) -> bool {
+        !["request", "response", "data", "none", "trailers", "ok"].contains(&res["k"].as_str().unwrap_or(""))
+    }
+
+    // One operation on a request stream (the same for both roles' streams): Some(result), or None when the call did not return within CAP.
+    // `recv_body` is the documented loop: recv_data until it hands out no more data (the pieces are logged as `piece` events).
+    macro_rules! stream_op {
+        ($log:expr, $st:expr, $name:expr) => {{
+            let name: &str = $name;
+            let r: Option<Value> = match name {
+                "recv_data" | "recv_body" => loop {
+                    match tokio::time::timeout(CAP, $st.recv_data()).await {
+                        Err(_) => break None,
+                        Ok(Ok(Some(d))) => {
+                            if name == "recv_data" {
+                                break Some(json!({"k": "data", "len": d.remaining()}));
+                            }
+                            ev(&$log, "piece", "recv_data", json!({"k": "data", "len": d.remaining()}));
+                        }
+                        Ok(Ok(None)) => break Some(json!({"k": "none"})),
+                        Ok(Err(e)) => break Some(proj::stream_err(&e)),
+                    }
+                },
+                "recv_trailers" => match tokio::time::timeout(CAP, $st.recv_trailers()).await {
+                    Err(_) => None,
+                    Ok(Ok(Some(_))) => Some(json!({"k": "trailers"})),
+                    Ok(Ok(None)) => Some(json!({"k": "none"})),
+                    Ok(Err(e)) => Some(proj::stream_err(&e)),
+                },
+                "send_data" => match tokio::time::timeout(CAP, $st.send_data(Bytes::from_static(b"hello"))).await {
+                    Err(_) => None,
+                    Ok(Ok(())) => Some(json!({"k": "ok"})),
+                    Ok(Err(e)) => Some(proj::stream_err(&e)),
+                },
+                "finish" => match tokio::time::timeout(CAP, $st.finish()).await {
+                    Err(_) => None,
+                    Ok(Ok(())) => Some(json!({"k": "ok"})),
+                    Ok(Err(e)) => Some(proj::stream_err(&e)),
+                },
+                _ => Some(json!({"k": "unknown_op"})),
+            };
+            r
+        }};
+    }
+
+    // The program: receive operations in order until the first that fails; that one is repeated `again` times (a retry loop), the
+    // remaining receive operations are skipped (calling on after an error is no documented pattern); the send operations follow.
+    macro_rules! stream_prog {
+        ($log:expr, $st:expr, $ops:expr, $again:expr, $failed:expr) => {{
+            let mut failed: bool = $failed;
+            let mut dead = false;
+            for op in $ops.iter() {
+                let name = op.as_str().unwrap_or("");
+                let is_recv = name.starts_with("recv");
+                if dead || (failed && is_recv) {
+                    ev(&$log, "skipped", name, json!({"after_error": failed}));
+                    continue;
+                }
+                match stream_op!($log, $st, name) {
+                    None => {
+                        ev(&$log, "pending", name, json!({}));
+                        dead = true;
+                    }
+                    Some(res) => {
+                        let e = is_err(&res);
+                        ev(&$log, "ret", name, res);
+                        if e && is_recv {
+                            failed = true;
+                            let rname = if name == "recv_body" { "recv_data" } else { name };
+                            for _ in 0..$again {
+                                match stream_op!($log, $st, rname) {
+                                    None => {
+                                        ev(&$log, "pending", rname, json!({"retry": true}));
+                                        dead = true;
+                                        break;
+                                    }
+                                    Some(res) => ev(&$log, "retry", rname, res),
+                                }
+                            }
+                        }
+                    }
+                }
+            }
+        }};
+    }
+
+    async fn peer_end(raw: &quinn::Connection, snd: &mut quinn::SendStream, rcv: &mut quinn::RecvStream, end: &Value) {
+        let code = VarInt::from_u32(end["code"].as_u64().unwrap_or(0) as u32);
+        match end["k"].as_str().unwrap_or("") {
+            "fin" => {
+                let _ = snd.finish();
+            }
+            "reset" => {
+                let _ = snd.reset(code);
+            }
+            "stop_reset" => {
+                let _ = rcv.stop(code);
+                let _ = snd.reset(code);
+            }
+            "stop_fin" => {
+                let _ = rcv.stop(code);
+                let _ = snd.finish();
+            }
+            "close" => {
+                // (usually after what was written has gone out; either way is a legal history)
+                tokio::time::sleep(Duration::from_millis(20)).await;
+                raw.close(code, b"bye")
+            }
+            _ => {}
+        }
+    }
+
+    pub async fn run_scenario(certs: &Certs, scn: &Value) -> Result<Vec<Value>, String> {
+        let is_client = scn["role"].as_str().unwrap_or("client") == "client";
+        let t = transport(0, 0, 0, 0);
+        let (c, s, cep, sep) = connect(certs, t.clone(), t).await?;
+        let (h3q, raw) = if is_client { (c, s) } else { (s, c) };
+        let log: Log = Arc::new(std::sync::Mutex::new(vec![]));
+        log.lock()
+            .unwrap()
+            .push(json!({"ev": "reset", "scn": scn["id"], "role": scn["role"], "prog": scn["prog"], "end": scn["end"], "again": scn["again"]}));
+        let prog: Vec<Value> = scn["prog"].as_array().cloned().unwrap_or_default();
+        let sent = bytes_of(&scn["sent"]);
+        let end = scn["end"].clone();
+        let again = scn["again"].as_u64().unwrap_or(1);
+        let hl = log.clone();
+        let h3task = if is_client {
+            tokio::spawn(async move {
+                let (mut driver, mut sender) = match h3::client::builder().build::<_, _, Bytes>(h3_quinn::Connection::new(h3q)).await {
+                    Ok(x) => x,
+                    Err(e) => {
+                        ev(&hl, "ret", "build", proj::conn_err(&e));
+                        return;
+                    }
+                };
+                let dl = hl.clone();
+                let drive = tokio::spawn(async move {
+                    match tokio::time::timeout(CAP * 3, poll_fn(|cx| driver.poll_close(cx))).await {
+                        Err(_) => ev(&dl, "pending", "driver", json!({})),
+                        Ok(_) => ev(&dl, "ret", "driver", json!({"k": "done"})),
+                    }
+                });
+                let mut st = match sender.send_request(http::Request::get("https://a/").body(()).unwrap()).await {
+                    Ok(st) => st,
+                    Err(e) => {
+                        ev(&hl, "ret", "send_request", proj::stream_err(&e));
+                        for op in prog.iter() {
+                            ev(&hl, "skipped", op.as_str().unwrap_or(""), json!({"no_request": true}));
+                        }
+                        return;
+                    }
+                };
+                // the head, retried like every other receive operation
+                let mut failed = false;
+                match tokio::time::timeout(CAP, st.recv_response()).await {
+                    Err(_) => ev(&hl, "pending", "head", json!({})),
+                    Ok(Ok(_)) => ev(&hl, "ret", "head", json!({"k": "response"})),
+                    Ok(Err(e)) => {
+                        ev(&hl, "ret", "head", proj::stream_err(&e));
+                        failed = true;
+                        for _ in 0..again {
+                            match tokio::time::timeout(CAP, st.recv_response()).await {
+                                Err(_) => {
+                                    ev(&hl, "pending", "head", json!({"retry": true}));
+                                    break;
+                                }
+                                Ok(Ok(_)) => ev(&hl, "retry", "head", json!({"k": "response"})),
+                                Ok(Err(e)) => ev(&hl, "retry", "head", proj::stream_err(&e)),
+                            }
+                        }
+                    }
+                }
+                let rest: Vec<Value> = prog.iter().skip(1).cloned().collect();
+                stream_prog!(hl, st, rest, again, failed);
+                drop(st);
+                drop(sender);
+                if let Err(e) = drive.await {
+                    if e.is_panic() {
+                        ev(&hl, "panic", "driver", json!({"msg": panic_msg(e.into_panic())}));
+                    }
+                }
+            })
+        } else {
+            tokio::spawn(async move {
+                let mut conn: h3::server::Connection<h3_quinn::Connection, Bytes> = match h3::server::builder().build(h3_quinn::Connection::new(h3q)).await {
+                    Ok(c) => c,
+                    Err(e) => {
+                        ev(&hl, "ret", "build", proj::conn_err(&e));
+                        for op in prog.iter() {
+                            ev(&hl, "skipped", op.as_str().unwrap_or(""), json!({"no_request": true}));
+                        }
+                        return;
+                    }
+                };
+                let mut handler = None;
+                // the accept loop ends when the peer closes the connection (it does, at the latest when it has seen the program end)
+                loop {
+                    match tokio::time::timeout(CAP * 3, conn.accept()).await {
+                        Err(_) => {
+                            ev(&hl, "pending", "accept", json!({}));
+                            break;
+                        }
+                        Ok(Ok(Some(resolver))) => {
+                            let hl2 = hl.clone();
+                            let prog = prog.clone();
+                            let hl3 = hl.clone();
+                            // (a panic of the handler is recorded at once, so that the peer does not wait for it)
+                            handler = Some(tokio::spawn(async move {
+                                let inner = tokio::spawn(async move {
+                                    let mut st = match tokio::time::timeout(CAP, resolver.resolve_request()).await {
+                                        Err(_) => {
+                                            ev(&hl2, "pending", "head", json!({}));
+                                            return;
+                                        }
+                                        Ok(Ok((_rq, st))) => {
+                                            ev(&hl2, "ret", "head", json!({"k": "request"}));
+                                            st
+                                        }
+                                        Ok(Err(e)) => {
+                                            // the resolver is consumed: there is nothing to retry on and no stream to go on with
+                                            ev(&hl2, "ret", "head", proj::stream_err(&e));
+                                            for op in prog.iter().skip(1) {
+                                                ev(&hl2, "skipped", op.as_str().unwrap_or(""), json!({"no_stream": true}));
+                                            }
+                                            ev(&hl2, "ret", "handler_done", json!({"k": "ok"}));
+                                            return;
+                                        }
+                                    };
+                                    let rest: Vec<Value> = prog.iter().skip(1).cloned().collect();
+                                    stream_prog!(hl2, st, rest, again, false);
+                                    ev(&hl2, "ret", "handler_done", json!({"k": "ok"}));
+                                });
+                                if let Err(e) = inner.await {
+                                    if e.is_panic() {
+                                        ev(&hl3, "panic", "handler", json!({"msg": panic_msg(e.into_panic())}));
+                                    }
+                                }
+                            }));
+                        }
+                        Ok(Ok(None)) => {
+                            ev(&hl, "ret", "accept", json!({"k": "none"}));
+                            break;
+                        }
+                        Ok(Err(e)) => {
+                            ev(&hl, "ret", "accept", proj::conn_err(&e));
+                            break;
+                        }
+                    }
+                }
+                match handler {
+                    Some(h) => {
+                        if let Err(e) = h.await {
+                            if e.is_panic() {
+                                ev(&hl, "panic", "handler", json!({"msg": panic_msg(e.into_panic())}));
+                            }
+                        }
+                    }
+                    // the connection ended before the request stream was heard of
+                    None => {
+                        for op in prog.iter() {
+                            ev(&hl, "skipped", op.as_str().unwrap_or(""), json!({"no_request": true}));
+                        }
+                    }
+                }
+            })
+        };
+        // ---- the raw peer
+        let mut keep: Vec<Box<dyn std::any::Any + Send>> = vec![];
+        if let Ok(mut ctl) = raw.open_uni().await {
+            let _ = ctl.write_all(&[0, 4, 0]).await;
+            keep.push(Box::new(ctl));
+        }
+        let bi = if is_client {
+            match tokio::time::timeout(CAP, raw.accept_bi()).await {
+                Ok(Ok(x)) => Some(x),
+                _ => None,
+            }
+        } else {
+            raw.open_bi().await.ok()
+        };
+        match bi {
+            Some((mut snd, mut rcv)) => {
+                if !sent.is_empty() {
+                    let _ = snd.write_all(&sent).await;
+                }
+                // (with a wait the h3 side has usually consumed what was written before the end arrives: a RESET_STREAM sent at once
+                //  overtakes and discards it)
+                let wait = scn["wait_ms"].as_u64().unwrap_or(0);
+                if wait > 0 {
+                    tokio::time::sleep(Duration::from_millis(wait)).await;
+                }
+                peer_end(&raw, &mut snd, &mut rcv, &end).await;
+                keep.push(Box::new(snd));
+                keep.push(Box::new(rcv));
+            }
+            None => return Err("H3ERR: the raw peer got no request stream".into()),
+        }
+        // the server's accept loop waits for the end of the connection: the peer closes once the handler is through (or after a while)
+        if !is_client {
+            let t0 = std::time::Instant::now();
+            loop {
+                let done = log
+                    .lock()
+                    .unwrap()
+                    .iter()
+                    .any(|e| e["ev"] == "pending" || e["ev"] == "panic" || e["api"] == "handler_done" || e["api"] == "accept" || e["api"] == "build");
+                if done || t0.elapsed() > CAP * 2 || h3task.is_finished() {
+                    break;
+                }
+                tokio::time::sleep(Duration::from_millis(2)).await;
+            }
+            raw.close(VarInt::from_u32(0x100), b"done");
+        }
+        match tokio::time::timeout(CAP * 4, h3task).await {
+            Err(_) => ev(&log, "pending", "task", json!({})),
+            Ok(Err(e)) if e.is_panic() => ev(&log, "panic", "task", json!({"msg": panic_msg(e.into_panic())})),
+            Ok(_) => {}
+        }
+        drop(keep);
+        raw.close(VarInt::from_u32(0x100), b"done");
+        cep.close(VarInt::from_u32(0), b"done");
+        sep.close(VarInt::from_u32(0), b"done");
+        let mut out = log.lock().unwrap().clone();
+        out.push(json!({"ev": "quiesce", "pending": []}));
+        Ok(out)
+    }
+}
+
 pub fn run(inp: &str, out: &str) -> Result<(), String> {
     let r = BufReader::new(std::fs::File::open(inp).map_err(|e| format!("{inp}: {e}"))?);
     let mut w = BufWriter::new(std::fs::File::create(out).map_err(|e| format!("{out}: {e}"))?);
@@ -1212,7 +1553,9 @@ pub fn run(inp: &str, out: &str) -> Result<(), String> {
         let scn: Value = serde_json::from_str(&line).map_err(|e| format!("scenario: {e}"))?;
         // a panic inside the adapter (outside the calls that are guarded individually) is data, not a tool failure
         let r = catch_unwind(AssertUnwindSafe(|| {
-            if scn["fam"] == "H3RAW" {
+            if scn["fam"] == "H3ERR" {
+                rt.block_on(h3err::run_scenario(&certs, &scn))
+            } else if scn["fam"] == "H3RAW" {
                 rt.block_on(h3raw::run_scenario(&certs, &scn))
             } else if scn["fam"] == "E2E" {
                 rt.block_on(e2e::run_scenario(&certs, &scn))
@@ -1225,7 +1568,9 @@ pub fn run(inp: &str, out: &str) -> Result<(), String> {
             Err(e) => {
                 rt = tokio::runtime::Builder::new_current_thread().enable_all().build().map_err(|e| e.to_string())?;
                 vec![
-                    if scn["fam"] == "H3RAW" {
+                    if scn["fam"] == "H3ERR" {
+                        json!({"ev": "reset", "scn": scn["id"], "role": scn["role"], "prog": scn["prog"], "end": scn["end"], "again": scn["again"]})
+                    } else if scn["fam"] == "H3RAW" {
                         json!({"ev": "reset", "scn": scn["id"], "role": scn["role"], "cfg": {}, "meta": {}, "wt": false})
                     } else if scn["fam"] == "E2E" {
                         json!({"ev": "reset", "scn": scn["id"], "role": "pair", "cfg": {}, "meta": {"req": scn["req"], "resp": scn["resp"]}, "wt": false})
